@@ -29,18 +29,19 @@ type c05Scn struct {
 	LowerHex, CM    bool
 	LibCfg          int
 	Seg             int
+	Hold            int // 0 none; 1 the peer answers FF on its first turn although it has messages; 2 likewise and the peer moves first
 }
 
 func (s c05Scn) describe() string {
-	return fmt.Sprintf("libSet=%d peerSet=%d policy=%d libMaster=%v block=%d spell=%d/%d/%d comments=%d motd=%d fw=%d sid=%d earlyFQ=%v dup=%v lowerHex=%v cm=%v libCfg=%d seg=%d",
-		s.LibSet, s.PeerSet, s.Policy, s.LibMaster, s.Block, s.Accept, s.Reject, s.Defer, s.Comments, s.MOTD, s.FW, s.SID, s.EarlyFQ, s.Dup, s.LowerHex, s.CM, s.LibCfg, c01Segs[s.Seg])
+	return fmt.Sprintf("libSet=%d peerSet=%d policy=%d libMaster=%v block=%d spell=%d/%d/%d comments=%d motd=%d fw=%d sid=%d earlyFQ=%v dup=%v lowerHex=%v cm=%v libCfg=%d seg=%d hold=%d",
+		s.LibSet, s.PeerSet, s.Policy, s.LibMaster, s.Block, s.Accept, s.Reject, s.Defer, s.Comments, s.MOTD, s.FW, s.SID, s.EarlyFQ, s.Dup, s.LowerHex, s.CM, s.LibCfg, c01Segs[s.Seg], s.Hold)
 }
 
-var c05Sizes = []int{nMsgShapes, nMsgShapes, c01NPolicies, 2, 258, len(b2f.AcceptSpellings) + 1, len(b2f.RejectSpellings) + 1, len(b2f.DeferSpellings) + 1, 7, 4, 3, len(b2f.SIDs), 2, 2, 2, 2, 5, len(c01Segs)}
+var c05Sizes = []int{nMsgShapes, nMsgShapes, c01NPolicies, 2, 258, len(b2f.AcceptSpellings) + 1, len(b2f.RejectSpellings) + 1, len(b2f.DeferSpellings) + 1, 7, 4, 3, len(b2f.SIDs), 2, 2, 2, 2, 5, len(c01Segs), 3}
 
 func c05FromIdx(x []int) c05Scn {
 	return c05Scn{LibSet: c01Shape(x[0], 2), PeerSet: c01Shape(x[1], 1), Policy: x[2], LibMaster: x[3] == 1, Block: x[4], Accept: x[5], Reject: x[6], Defer: x[7],
-		Comments: x[8], MOTD: x[9], FW: x[10], SID: x[11], EarlyFQ: x[12] == 1, Dup: x[13] == 1, LowerHex: x[14] == 1, CM: x[15] == 1, LibCfg: x[16], Seg: x[17]}
+		Comments: x[8], MOTD: x[9], FW: x[10], SID: x[11], EarlyFQ: x[12] == 1, Dup: x[13] == 1, LowerHex: x[14] == 1, CM: x[15] == 1, LibCfg: x[16], Seg: x[17], Hold: x[18]}
 }
 
 type c05Out struct {
@@ -50,6 +51,13 @@ type c05Out struct {
 }
 
 func c05Run(sc c05Scn) c05Out {
+	hold := 0
+	if sc.Hold > 0 {
+		hold = 1
+	}
+	if sc.Hold == 2 {
+		sc.LibMaster = true // the peer (slave) moves first
+	}
 	libCall, peerCall := "N0LIB", "N0PEER"
 	libCallIn, locator := "N0LIB", "JO39EQ"
 	ua := fbb.StdUA
@@ -65,6 +73,7 @@ func c05Run(sc c05Scn) c05Out {
 		aux = []fbb.Address{fbb.AddressFromString("AUX1"), fbb.AddressFromString("AUX2-3")}
 		locator = ""
 	}
+	VariantFrom = map[string]string{"A": libCall, "B": peerCall}
 	libSpecs, peerSpecs := msgSetShape(sc.LibSet, "A"), msgSetShape(sc.PeerSet, "B")
 	box := sess.NewBox("lib")
 	libWant := map[string][]byte{}
@@ -101,7 +110,7 @@ func c05Run(sc c05Scn) c05Out {
 			return '+'
 		},
 		C: b2f.Choices{BlockSize: blk, AcceptSpell: sc.Accept, RejectSpell: sc.Reject, DeferSpell: sc.Defer, Comments: sc.Comments, MOTD: sc.MOTD, FW: sc.FW, SID: sc.SID,
-			EarlyFQ: sc.EarlyFQ, DupMID: sc.Dup, LowerHex: sc.LowerHex, PropCM: sc.CM}}
+			EarlyFQ: sc.EarlyFQ, DupMID: sc.Dup, LowerHex: sc.LowerHex, PropCM: sc.CM, HoldTurns: hold}}
 	plan := link.Plan{Cut: link.NoCut(), FailAfter: -1}
 	for d := 0; d < 2; d++ {
 		plan.Seg[d].Every = c01Segs[sc.Seg]
@@ -254,6 +263,9 @@ func c05Run(sc c05Scn) c05Out {
 		}
 		got, answered := peer.AnswersGot[mid]
 		if !answered {
+			if hold > 0 && len(peer.AnswersGot) == 0 {
+				continue // the session ended (legitimately) before the held-back messages were ever offered
+			}
 			return fail("peer-message-never-answered", "%s", mid)
 		}
 		if got != libAns[mid] {
